@@ -31,7 +31,7 @@ LayProbes  == {"b1", "b5", "b13", "b14"}
 (* C12: interleavings of puts and interruptions; every reopen variant *)
 ResOpts == { MkOpt(FALSE, d, i, v, 2048, l) : d \in BOOLEAN, i \in BOOLEAN, v \in BOOLEAN, l \in 0..2 }
 ResRoots   == { <<"b1">>, <<"b3", "b4">>, <<>>, <<"b1", "b1">> }
-ResPutIds  == {"b1", "b4", "b5"}
+ResPutIds  == {"b1", "b12", "b5"}     \* b12: a section that ends with its CID (no data bytes)
 ResMany    == {}
-ResProbes  == {"b1", "b4", "b5"}
+ResProbes  == {"b1", "b12", "b5"}
 =============================================================================
